@@ -92,6 +92,12 @@ type OrderedObsPP struct{ ObsPP }
 
 func (o *OrderedObsPP) Order() int { return o.OrderV }
 
+// PriorityObsPP is an ObsPP that is priority-ordered (it sorts before the built-in configuration processors).
+type PriorityObsPP struct{ ObsPP }
+
+func (o *PriorityObsPP) Order() int { return o.OrderV }
+func (o *PriorityObsPP) Priority()  {}
+
 // ---------------------------------------------------------------------------
 // WrapPP: substituting post-processor. Plan per component name.
 
